@@ -339,7 +339,10 @@ class StmtMixin:
         env = self.frame.env
         for m in list(assigned_names(body)) + list(extra_names):
             if m in env:
-                env[m] = self.havoc_like(env[m], m)
+                if env[m].k in ('obj', 'list', 'dict', 'func', 'gen', 'cls', 'enum', 'super'):
+                    del env[m]      # may refer to a different object after the loop: undefined for the rest of the path
+                else:
+                    env[m] = self.havoc_like(env[m], m)
         for g in lc.get('havoc_ghost', list(self.cur_contract.get('ghost', {}))):
             if g in self.st.ghost:
                 self.st.ghost[g] = self.havoc_like(self.st.ghost[g], g)
@@ -364,6 +367,8 @@ class StmtMixin:
             return SV('opq', self.sym(hint, OPQ), v.x)
         if v.k == 'none':
             return v
+        if v.k == 'ref':
+            return SV('ref', self.sym(hint, INT))
         if v.k == 'tuple':
             return SV('tuple', tuple(self.havoc_like(x, hint) for x in v.t))
         raise Unsupported(f'havoc of {v.k} ({hint}) - declare its shape in the loop contract')
@@ -499,4 +504,27 @@ class StmtMixin:
         raise Unsupported('for_symbolic')
 
     def for_gen(self, s, it, lc, ordinal, tnames):
-        raise Unsupported('for over generator contract')
+        """consume a generator that is specified by a contract: each element satisfies the callee's per-yield guarantees
+        (proved where the callee is verified) for some callee ghost state"""
+        key, c, cenv = it.t
+        self.check_invs(lc, 'inv-init', s, ordinal)
+        self.havoc_loop(lc, s.body, extra_names=tnames)
+        self.assume_invs(lc)
+        if self.st.oracle.choose(2) == 0:
+            env = dict(cenv)
+            for g, (spec, init) in c.get('ghost', {}).items():
+                env[g] = self.fresh_of(spec, 'callee_' + g)
+            y = self.fresh_of(c['yields'], 'yielded')
+            env['yielded'] = y
+            for nm, r in self.clauses(c.get('yield_requires', [])):
+                self.assume(self.truth(self.ev_spec(r, env)))
+            self.assign(s.target, y)
+            try:
+                self.exec_block(s.body)
+            except ContinueSig:
+                pass
+            except BreakSig:
+                raise Unsupported('break inside a contracted for loop')
+            self.check_invs(lc, 'inv-keep', s, ordinal)
+            raise PathEnd('loop body verified')
+        self.exec_block(s.orelse)
